@@ -12,29 +12,46 @@ def run(ctx):
                 "struct values object x sfi x channels incl. out-of-field values, the frequency table and profile conversions for all "
                 "256 values, every accepted configuration x boundary/seeded raw lengths through the library encoder, every "
                 "id x protection x profile x sfi x channels x length frame written from the ISO layout, and all 2- and 3-frame "
-                "concatenations over a pool of library/ISO, CRC/no-CRC frames; a case is distinct if its JSON differs; each stream "
-                "case is replayed with three payloads (pattern, sync-word look-alike, seeded random)")
+                "concatenations over a pool of library/ISO, CRC/no-CRC frames; payload classes (the raw block is a complete ADTS frame of "
+                "the same / another configuration, either ID, with CRC, wrapped twice or three times, one byte longer / shorter than its "
+                "length field, starts with a sync word, is only header bytes) x carrier x inner length, alone and between other frames; "
+                "long-stream shapes frame kind x count (one kind, two kinds alternating, one kind after the other) ending just below / "
+                "at or above 2^15..2^20 bytes, decoded one frame at a time by one decoder through one buffer; a case is distinct if its "
+                "JSON differs; each stream case is replayed with three payloads (pattern, sync-word look-alike, seeded random)")
     ctx.exhaustive = True
     ctx.assumptions += [
-        "raw blocks are opaque: three payload families per case (position pattern, bytes that look like ADTS headers, seeded random), not all byte strings",
+        "raw blocks are opaque: three payload families per case (position pattern, bytes that look like ADTS headers, seeded random) "
+        "plus the payload classes of the specification (complete frames, header look-alikes), not all byte strings",
+        "streams up to about 1 MiB (2^20 bytes); buffer lengths at the 32-bit boundary are out of reach",
         "the 16 CRC bits of spec-written frames are pattern values (0xFFF1, 0, 0xFFFF, mixed), not a CRC computed over a parsed raw_data_block",
         "frame lengths: the boundary set of the cfg plus seeded random lengths, not all 8184",
         "header bits the property does not name (ID, private, original/copy, home, copyright, buffer fullness) are not compared on encoder output",
     ]
+    J = ["-Xmx3g"]
     ctx.sany("aac", "Adts")
-    ctx.tlc("aac", "MC_Adts", "MC_Adts.cfg", coverage=(ctx.tier == "thorough"))
-    ctx.tlc("aac", "MC_Adts", "MC_Adts_crc7.cfg", expect_violation="DecodeExact", count_states=False)
-    ctx.tlc("aac", "MC_AdtsTables", "MC_AdtsTables.cfg")
+    ctx.tlc("aac", "MC_Adts", "MC_Adts.cfg", coverage=(ctx.tier == "thorough"), jopts=J)
+    ctx.tlc("aac", "MC_Adts", "MC_Adts_crc7.cfg", expect_violation="DecodeExact", count_states=False, jopts=J)
+    # payload classes: the raw block handed to Encode / carried by the ISO writer is itself a frame or looks like a header
+    ctx.tlc("aac", "MC_Adts", "MC_Adts_pay.cfg", coverage=(ctx.tier == "thorough"), jopts=J)
+    ctx.tlc("aac", "MC_Adts", "MC_Adts_pass.cfg", expect_violation="DecodeExact", count_states=False, jopts=J)
+    # a stream longer than 64 KiB (9 frames of 8191 bytes) taken off one frame at a time
+    ctx.tlc("aac", "MC_Adts", "MC_Adts_long.cfg", jopts=J)
+    ctx.tlc("aac", "MC_Adts", "MC_Adts_len16.cfg", expect_violation="DecodeExact", count_states=False, jopts=J)
+    ctx.tlc("aac", "MC_AdtsTables", "MC_AdtsTables.cfg", jopts=J)
     cases = os.path.join(ctx.out, "cases.ndjson")
-    ctx.tlc("aac", "Gen_Adts", "Gen_Adts.%s.cfg" % ctx.tier, cases_to=cases, timeout=800,
+    ctx.tlc("aac", "Gen_Adts", "Gen_Adts.%s.cfg" % ctx.tier, cases_to=cases, timeout=800, jopts=J,
             files={"Gen_AdtsSeed.tla": SEED_MODULE % (ctx.seed % 1000003)})
     res = ctx.replay("adts", cases)
     ctx.judge("adts", cases, res)
     # behaviours of the ADTS object (model -> code, abstract state compared after every step)
     beh = os.path.join(ctx.out, "behaviours.ndjson")
-    ctx.tlc("aac", "Gen_AdtsBeh", "Gen_AdtsBeh.%s.cfg" % ctx.tier, cases_to=beh, timeout=800)
+    ctx.tlc("aac", "Gen_AdtsBeh", "Gen_AdtsBeh.%s.cfg" % ctx.tier, cases_to=beh, timeout=800, jopts=J)
+    ctx.tlc("aac", "Gen_AdtsBeh", "Gen_AdtsBeh.pay.%s.cfg" % ctx.tier, cases_to=beh, timeout=800, jopts=J)
+    # Depth of the cfg is 44: -depth 45 ends every random trace on a complete behaviour
+    ctx.tlc("aac", "Gen_AdtsBeh", "Gen_AdtsBeh.long.cfg", cases_to=beh, simulate=(6 if ctx.tier == "quick" else 60), depth=45,
+            workers=1, timeout=800, jopts=J)
     if ctx.tier == "thorough":
         # Depth of the cfg is 14: -depth 15 ends every random trace on a complete behaviour
-        ctx.tlc("aac", "Gen_AdtsBeh", "Gen_AdtsBeh.sim.cfg", cases_to=beh, simulate=250, depth=15, workers=8, timeout=800)
+        ctx.tlc("aac", "Gen_AdtsBeh", "Gen_AdtsBeh.sim.cfg", cases_to=beh, simulate=250, depth=15, workers=8, timeout=800, jopts=J)
     res = ctx.replay("adtsbeh", beh)
     ctx.judge("adtsbeh", beh, res)
